@@ -5,7 +5,9 @@ import (
 	"encoding/json"
 	"fmt"
 	"os"
+	"runtime"
 	"runtime/debug"
+	"time"
 	"sort"
 )
 
@@ -84,6 +86,7 @@ func RunWorker(m *Monitor, tier string, seed, a, b int64, out string) error {
 		return err
 	}
 	defer jf.Close()
+	go memoryWatchdog()
 	if m.Init != nil {
 		m.Init(tier)
 	}
@@ -175,4 +178,20 @@ func ReplayOne(m *Monitor, tier string, seed, i int64) (Witness, Verdict) {
 		w.Reason = "held"
 	}
 	return w, c.verdict
+}
+
+// MemLimit is the heap size beyond which a worker gives up on its current case (exit status 98). Every case
+// is sized by its generator to need a few MB; a case that needs gigabytes has left its documented cost class.
+const MemLimit = 4 << 30
+
+func memoryWatchdog() {
+	var ms runtime.MemStats
+	for {
+		time.Sleep(200 * time.Millisecond)
+		runtime.ReadMemStats(&ms)
+		if ms.HeapAlloc > MemLimit {
+			fmt.Fprintf(os.Stderr, "worker heap %d MiB exceeds the %d MiB limit: giving up on the current case\n", ms.HeapAlloc>>20, MemLimit>>20)
+			os.Exit(98)
+		}
+	}
 }
